@@ -133,6 +133,20 @@ Definition parse_map (s : bytes) : option (list (bytes * bytes)) :=
   | [] => None
   end.
 
+(* text the read-back theorem covers: well-formed UTF-8 that holds none of U+FFFD, U+2028, U+2029 *)
+Fixpoint text_plain_f (fuel : nat) (s : bytes) : bool :=
+  match s with
+  | [] => true
+  | _ =>
+    match fuel with
+    | O => false
+    | S f =>
+      let '(cp, n) := decode_rune s in
+      if (cp =? rune_error) || (cp =? 8232) || (cp =? 8233) then false else text_plain_f f (skipn n s)
+    end
+  end.
+Definition text_plain (s : bytes) : bool := text_plain_f (length s) s.
+
 (* assignments to a map: a later entry replaces an earlier one with the same key *)
 Fixpoint dedup_last (l : list (bytes * bytes)) : list (bytes * bytes) :=
   match l with
